@@ -1025,16 +1025,38 @@ class Evaluator:
                 return None
             bound[("param", params[0])] = selfterm
             params = params[1:]
-        if any(a[0] == "star" for a in call_term[2]) or any(k == "**" for k, _ in call_term[3]) or cs.kwarg or cs.vararg:
+        if any(a[0] == "star" for a in call_term[2]) or cs.vararg:
             return None
         if len(call_term[2]) > len(params):
             return None
         for p, a in zip(params, call_term[2]):
             bound[("param", p)] = a
+        extra_items = []
+        kws = []
         for k, v in call_term[3]:
-            if k not in params or ("param", k) in bound:
+            if k == "**":
+                # a spread of a dict display with constant string keys is a set of ordinary keywords
+                if v[0] == "dict" and all(kk[0] == "const" and isinstance(kk[1], str) for kk, _ in v[1]):
+                    kws += [(kk[1], vv) for kk, vv in v[1]]
+                elif cs.kwarg and v[0] == "dict":
+                    extra_items += list(v[1])
+                elif cs.kwarg:
+                    extra_items.append((("dstar",), v))
+                else:
+                    return None
+            else:
+                kws.append((k, v))
+        for k, v in kws:
+            if ("param", k) in bound:
                 return None
-            bound[("param", k)] = v
+            if k in params:
+                bound[("param", k)] = v
+            elif cs.kwarg:
+                extra_items.append((("const", k), v))
+            else:
+                return None
+        if cs.kwarg:
+            bound[("param", "**" + cs.kwarg)] = ("dict", tuple(extra_items))
         for p in params:
             if ("param", p) not in bound:
                 if p not in cs.defaults:
@@ -1283,6 +1305,25 @@ def fold_sub(t):
     if not isinstance(t, tuple) or not t:
         return t
     t = tuple(fold_sub(c) if isinstance(c, tuple) else c for c in t)
+    if t and t[0] == "dict" and any(k == ("dstar",) and v[0] == "dict" for k, v in t[1]):
+        items = []
+        for k, v in t[1]:
+            if k == ("dstar",) and v[0] == "dict":
+                items += list(v[1])
+            else:
+                items.append((k, v))
+        return ("dict", tuple(items))
+    if t and t[0] == "call" and any(k == "**" and v[0] == "dict" and all(kk[0] == "const" and isinstance(kk[1], str) for kk, _ in v[1])
+                                    for k, v in t[3]):
+        named = [(k, v) for k, v in t[3] if k != "**"]
+        spreads = []
+        for k, v in t[3]:
+            if k == "**":
+                if v[0] == "dict" and all(kk[0] == "const" and isinstance(kk[1], str) for kk, _ in v[1]):
+                    named += [(kk[1], vv) for kk, vv in v[1]]
+                else:
+                    spreads.append((k, v))
+        return ("call", t[1], t[2], tuple(sorted(named, key=lambda kv: kv[0]) + spreads))
     if t and t[0] == "call" and t[1] == ("builtin", "getattr") and len(t[2]) == 2 and not t[3] and t[2][1][0] == "const" \
             and isinstance(t[2][1][1], str) and t[2][1][1].isidentifier():
         return ("attr", t[2][0], t[2][1][1])
